@@ -69,13 +69,22 @@ func (c *Conn) handleAppend(tag string, dec *imapwire.Decoder) error {
 	}
 
 	if lit.Size() > appendLimit {
-		return &imap.Error{
+		err = &imap.Error{
 			Type: imap.StatusResponseTypeNo,
 			Code: imap.ResponseCodeTooBig,
 			Text: fmt.Sprintf("Literals are limited to %v bytes for this command", appendLimit),
 		}
+	} else {
+		err = c.acceptLiteral(lit.Size(), nonSync)
 	}
-	if err := c.acceptLiteral(lit.Size(), nonSync); err != nil {
+	if err != nil {
+		if nonSync {
+			// The client sends a non-synchronizing literal without waiting
+			// for a go-ahead: skip it, so that its octets are not parsed as
+			// commands
+			io.Copy(io.Discard, lit)
+			dec.CRLF()
+		}
 		return err
 	}
 
